@@ -14,17 +14,20 @@ WRAP="-Wl,--wrap=pthread_mutex_lock,--wrap=pthread_mutex_unlock,--wrap=pthread_m
 rt_hash=$(cat $ROOT/xsim/*.cpp $ROOT/xsim/*.inc $ROOT/xsim/*.hpp | sha256sum | cut -c1-24)
 RT=$ROOT/build/cache/rt-$rt_hash.o
 if [ ! -f $RT ]; then
-  $CXX $RTFLAGS -c $ROOT/xsim/rt.cpp -o $RT.tmp.$$ && mv $RT.tmp.$$ $RT
+  $CXX $RTFLAGS -c $ROOT/xsim/rt.cpp -o $RT.tmp.$$ || exit 2
+  mv $RT.tmp.$$ $RT
 fi
 src_hash=$( (cat $ROOT/harness/$H.cpp $ROOT/harness/*.hpp $ROOT/xsim/*.hpp; find $REPO/xenium -name '*.hpp' | sort | xargs cat; echo "$HFLAGS" | sed "s#$REPO#REPO#g") | sha256sum | cut -c1-24)
 OBJ=$ROOT/build/cache/$H-$V-$src_hash.o
 if [ ! -f $OBJ ]; then
-  $CXX $HFLAGS -c $ROOT/harness/$H.cpp -o $OBJ.tmp.$$ && mv $OBJ.tmp.$$ $OBJ
+  $CXX $HFLAGS -c $ROOT/harness/$H.cpp -o $OBJ.tmp.$$ || exit 2
+  mv $OBJ.tmp.$$ $OBJ
 fi
 BIN=$ROOT/bin/$H.$V
 STAMP=$ROOT/build/cache/$H-$V.link
 if [ ! -f $BIN ] || [ "$(cat $STAMP 2>/dev/null)" != "$rt_hash-$src_hash" ]; then
-  $CXX -no-pie $OBJ $RT -o $BIN.tmp.$$ -lpthread $WRAP && mv $BIN.tmp.$$ $BIN
+  $CXX -no-pie $OBJ $RT -o $BIN.tmp.$$ -lpthread $WRAP || exit 2
+  mv $BIN.tmp.$$ $BIN
   echo "$rt_hash-$src_hash" > $STAMP
 fi
 echo $BIN
